@@ -79,6 +79,25 @@ F_EMPTYMEMBER = 'C19-EMPTYMEMBER-zero-length-member'
 F_LINEDTYPE = 'C19-LINEDTYPE-per-member-consolidation'
 
 
+def empty_candidate_window(n, size, step, wopt):
+    """does the loop of container_util.axis_window_items, run over n labels, extract a candidate window that addresses no
+    position?  (the loop's own arithmetic, written out once more: candidates are extracted before they are judged)"""
+    label_shift, start_shift = wopt.get('label_shift', 0), wopt.get('start_shift', 0)
+    size_increment = wopt.get('size_increment', 0)
+    count_max = n if start_shift >= 0 else n + abs(start_shift)
+    idx_left_max, idx_left, count = count_max - 1, start_shift, 0
+    while True:
+        idx_right = idx_left + size - 1
+        lo, hi = (idx_left if idx_left > 0 else 0), (idx_right if idx_right > -1 else -1) + 1
+        if len(range(n)[lo:hi]) == 0:
+            return True
+        idx_left += step
+        size += size_increment
+        count += 1
+        if count > count_max or idx_left > idx_left_max or size < 0:
+            return False
+
+
 def classify(f):
     d = f.detail or {}
     if f.kind != 'oracle':
@@ -520,7 +539,12 @@ def cases(ctx):
     for _ in range(250 if quick else 3000):
         cont = rand_container(rng)
         n = sum(cont['sizes'])
-        yield {'k': 'all', 'cont': cont, 'wsize': rng.randint(1, min(n, 3) + 1), 'wstep': rng.randint(1, 2)}
+        wopt = {}
+        if rng.random() < 0.6:
+            # the remaining options of the window iterators: the values-only forms must drop / keep the same windows as the items forms
+            wopt = {'label_shift': rng.choice([0, 1, 1, 2, -1, -2, 3]), 'start_shift': rng.choice([0, 0, 1, 2, -1]),
+                    'size_increment': rng.choice([0, 0, 1, -1]), 'window_sized': rng.random() < 0.7}
+        yield {'k': 'all', 'cont': cont, 'wsize': rng.randint(1, min(n, 3) + 1), 'wstep': rng.randint(1, 2), 'wopt': wopt}
     # Batch
     for _ in range(1000 if quick else 12000):
         yield rand_batch_case(rng)
@@ -992,6 +1016,7 @@ def eval_all(ctx, c, outs):
     cont = c['cont']
     axis = cont['axis']
     ws, wstep = c['wsize'], c['wstep']
+    wopt = c.get('wopt') or {}
     with Built(cont) as b:
         q, orc = b.quilt, b.oracle
         ctx.count(f'all_axis{axis}_retain{int(cont["retain"])}')
@@ -1020,10 +1045,10 @@ def eval_all(ctx, c, outs):
             ops[f'iter_tuple_{ax}'] = lambda x, ax=ax: [canon(t) for t in x.iter_tuple(axis=ax)]
             ops[f'iter_tuple_items_{ax}'] = lambda x, ax=ax: [(lab_form(k), canon(t)) for k, t in x.iter_tuple_items(axis=ax)]
             ops[f'iter_tuple_ctor_{ax}'] = lambda x, ax=ax: [canon(t) for t in x.iter_tuple(axis=ax, constructor=tuple)]
-            ops[f'iter_window_{ax}'] = lambda x, ax=ax: [canon(w) for w in x.iter_window(size=ws, step=wstep, axis=ax)]
-            ops[f'iter_window_items_{ax}'] = lambda x, ax=ax: [(lab_form(k), canon(w)) for k, w in x.iter_window_items(size=ws, step=wstep, axis=ax)]
-            ops[f'iter_window_array_{ax}'] = lambda x, ax=ax: [canon(w) for w in x.iter_window_array(size=ws, step=wstep, axis=ax)]
-            ops[f'iter_window_array_items_{ax}'] = lambda x, ax=ax: [(lab_form(k), canon(w)) for k, w in x.iter_window_array_items(size=ws, step=wstep, axis=ax)]
+            ops[f'iter_window_{ax}'] = lambda x, ax=ax: [canon(w) for w in x.iter_window(size=ws, step=wstep, axis=ax, **wopt)]
+            ops[f'iter_window_items_{ax}'] = lambda x, ax=ax: [(lab_form(k), canon(w)) for k, w in x.iter_window_items(size=ws, step=wstep, axis=ax, **wopt)]
+            ops[f'iter_window_array_{ax}'] = lambda x, ax=ax: [canon(w) for w in x.iter_window_array(size=ws, step=wstep, axis=ax, **wopt)]
+            ops[f'iter_window_array_items_{ax}'] = lambda x, ax=ax: [(lab_form(k), canon(w)) for k, w in x.iter_window_array_items(size=ws, step=wstep, axis=ax, **wopt)]
         ops['items'] = lambda x: [(lab_form(k), canon(s)) for k, s in x.items()]
         for name, fn in ops.items():
             got = attempt(lambda: canon_any(fn(q)))
@@ -1037,7 +1062,17 @@ def eval_all(ctx, c, outs):
                     fails.append(Failure('oracle', f'{name} on a Quilt of axis {axis}: NotImplementedAxis (iteration across the members is refused); the concatenated Frame iterates',
                                          c, detail={'finding': F_NOTIMPL, 'op': name}))
                 else:
-                    fails.append(Failure('oracle', f'{name} (axis={axis} retain={cont["retain"]} sizes={cont["sizes"]}): Quilt raises {type(got[1]).__name__}: {str(got[1])[:120]}', c, detail={'op': name}))
+                    fid = None
+                    if name.startswith('iter_window') and empty_candidate_window(orc.shape[int(name[-1])], ws, wstep, wopt):
+                        # a candidate window of the loop addresses no position (it starts before the axis, its size shrank to zero,
+                        # or it lies past the end): the Quilt extracts it before the loop decides that it is invalid - the empty
+                        # selections of C19-EMPTY (on the Quilt axis) and C19-ZEROWIDTH (on the other axis)
+                        if (isinstance(got[1], UnboundLocalError) and 'component_is_series' in str(got[1])) or \
+                                (isinstance(got[1], RuntimeError) and 'StopIteration' in str(got[1])):
+                            fid = F_EMPTY
+                        elif type(got[1]).__name__ == 'ErrorInitTypeBlocks' and 'cannot derive a row_count' in str(got[1]):
+                            fid = F_ZEROW
+                    fails.append(Failure('oracle', f'{name} (axis={axis} retain={cont["retain"]} sizes={cont["sizes"]}): Quilt raises {type(got[1]).__name__}: {str(got[1])[:120]}', c, detail={'op': name, 'finding': fid}))
                 continue
             if got[1] != exp[1]:
                 fid = F_LINEDTYPE if axis == 1 and loosen(got[1]) == loosen(exp[1]) else None
